@@ -1701,6 +1701,9 @@ var anchorPkg = map[string]string{
 }
 
 func isHelperAnchor(fn *ssa.Function) bool {
+	if anchorKeyOf(fn) != "" {
+		return true // a named anchor, whatever it is called today
+	}
 	if !helperAnchors[fn.Name()] {
 		return false
 	}
@@ -1717,6 +1720,9 @@ func defaultInline(caller, callee *ssa.Function) bool {
 	// setup functions and handlers are entry points, never helpers
 	if strings.HasPrefix(callee.Name(), "setup") {
 		return false
+	}
+	if curProg != nil && usedAsValue(curProg)[callee] {
+		return false // registered as a setup function / handed out as a handler
 	}
 	return fnPkgPath(caller) == fnPkgPath(callee)
 }
